@@ -311,23 +311,23 @@ Theorem xmr_b58_enc_dec_linked : forall s b, b58x_decode s = Ok b -> b58x_encode
 Proof. exact LinkXmr.b58x_encode_decode. Qed.
 Print Assumptions xmr_b58_enc_dec_linked.
 
-(* the address decoder accepts exactly the canonical block-Base58 spellings of byte strings that pass its
-   checksum / net-byte / length / payment-id / key tests ([addr_bytes_accepted], a predicate on BYTES):
-   an address has no second spelling, and damage that survives the Base58 layer is a different byte string *)
-Notation addr_bytes_accepted o := (LinkXmr.addr_bytes_accepted (keccak o) (G o) (pdec o)).
-Theorem address_decoder_accepts_iff : forall o addr net payid r,
-  decode_addr o addr net payid = Ok r <->
-  exists dec, bytes_ok dec /\ b58x_encode dec = addr /\ addr_bytes_accepted o dec net payid r.
-Proof. intros o. exact (LinkXmr.decode_addr_accepts_iff (keccak o) (G o) (pdec o)). Qed.
-Print Assumptions address_decoder_accepts_iff.
+(* the fuel artefact of Model/XmrB58.v is unreachable: the codec of the address model refuses with ValueError only *)
+Theorem xmr_b58_decode_errors_linked : forall s e, b58x_decode s = Err e -> e = ValueError.
+Proof. exact LinkXmr.b58x_decode_err. Qed.
+Print Assumptions xmr_b58_decode_errors_linked.
 
+(* the address decoder: an accepted address string is THE canonical block-Base58 spelling of a byte string (an
+   address has no second spelling), and acceptance is a property of the decoded bytes.  Stated through the
+   decoder's first step only, so that it is independent of the checks performed on the bytes afterwards (the exact
+   condition on the bytes, and ValueError as the only refusal of the whole decoder, are proved in
+   Lemmas/LinkXmrAddr.v against the present body of Model/AddrXmr.v, which is under revision) *)
 Theorem address_accepted_is_canonical : forall o addr net payid r, decode_addr o addr net payid = Ok r ->
-  exists dec, b58x_decode addr = Ok dec /\ b58x_encode dec = addr.
+  exists dec, bytes_ok dec /\ b58x_decode addr = Ok dec /\ b58x_encode dec = addr.
 Proof. intros o. exact (LinkXmr.decode_addr_canonical (keccak o) (G o) (pdec o)). Qed.
 Print Assumptions address_accepted_is_canonical.
 
-(* [address_decoder_errors] above leaves the fuel artefact as a possible outcome; through the C11 decoder
-   (count recursion, no fuel) it is excluded: ValueError is the only refusal *)
-Theorem address_decoder_errors_linked : forall o s net payid e, decode_addr o s net payid = Err e -> e = ValueError.
-Proof. intros o. exact (LinkXmr.decode_addr_err_value (keccak o) (G o) (pdec o)). Qed.
-Print Assumptions address_decoder_errors_linked.
+Theorem address_decoder_accepts_iff_canonical : forall o addr net payid r,
+  decode_addr o addr net payid = Ok r <->
+  exists dec, bytes_ok dec /\ b58x_encode dec = addr /\ decode_addr o (b58x_encode dec) net payid = Ok r.
+Proof. intros o. exact (LinkXmr.decode_addr_accepts_iff_canonical (keccak o) (G o) (pdec o)). Qed.
+Print Assumptions address_decoder_accepts_iff_canonical.
